@@ -528,7 +528,7 @@ pub fn rows_c08(args: &[String]) -> i32 {
 }
 
 // ------------------------------------------------------------------ C17
-fn dec_json(s: &str) -> Value {
+pub fn dec_json(s: &str) -> Value {
     // plain decimal text (Rust Display of an integer or float) -> {nan, neg, d, e}
     if s == "NaN" {
         return json!({"nan": true, "neg": false, "d": [], "e": 0});
